@@ -80,7 +80,9 @@ fn window_text(cs: &[Cell], start: usize, end: usize) -> String {
 
 pub fn pad_ref(content: &str, width: usize, align: Align, truncate: bool) -> PadExpect {
     let cs = cells(content);
-    let total: usize = cs.iter().map(|c| c.cols).sum();
+    // (the width of the content as a whole: for sequences such as an emoji with a variation selector it is
+    // not the sum over the code points; without such sequences the two agree)
+    let total: usize = cols(content);
     if total <= width {
         let diff = width - total;
         let pads: Vec<(usize, usize)> = match align {
